@@ -63,6 +63,8 @@ type L1Options struct {
 	RegistrationFee sdk.Coins
 	// Prefix for store key names (two-chain worlds mount both chains in one multistore).
 	NoHook bool
+	// Blank leaves every store empty (no params, no accounts): the target of a genesis import.
+	Blank bool
 }
 
 // pool implements ophosttypes.CommunityPoolKeeper by really moving the coins.
@@ -102,16 +104,20 @@ func NewL1(opt L1Options) *L1 {
 		authtypes.ProtoBaseAccount, maccPerms,
 		authcodec.NewBech32Codec(sdk.GetConfig().GetBech32AccountAddrPrefix()),
 		sdk.GetConfig().GetBech32AccountAddrPrefix(), authority)
-	if err := ak.Params.Set(ctx, authtypes.DefaultParams()); err != nil {
-		panic(err)
+	if !opt.Blank {
+		if err := ak.Params.Set(ctx, authtypes.DefaultParams()); err != nil {
+			panic(err)
+		}
 	}
 	blocked := map[string]bool{}
 	for acc := range maccPerms {
 		blocked[authtypes.NewModuleAddress(acc).String()] = true
 	}
 	bk := bankkeeper.NewBaseKeeper(enc.Marshaler, runtime.NewKVStoreService(keys[banktypes.StoreKey]), ak, blocked, authority, ctx.Logger())
-	if err := bk.SetParams(ctx, banktypes.DefaultParams()); err != nil {
-		panic(err)
+	if !opt.Blank {
+		if err := bk.SetParams(ctx, banktypes.DefaultParams()); err != nil {
+			panic(err)
+		}
 	}
 	router := baseapp.NewMsgServiceRouter()
 	router.SetInterfaceRegistry(enc.InterfaceRegistry)
@@ -124,14 +130,18 @@ func NewL1(opt L1Options) *L1 {
 	if opt.RegistrationFee != nil {
 		params.RegistrationFee = opt.RegistrationFee
 	}
-	if err := hk.SetParams(ctx, params); err != nil {
-		panic(err)
+	if !opt.Blank {
+		if err := hk.SetParams(ctx, params); err != nil {
+			panic(err)
+		}
 	}
 	ophosttypes.RegisterMsgServer(router, ophostkeeper.NewMsgServerImpl(*hk))
 
 	// make sure the module accounts that can receive funds exist up front
-	ak.GetModuleAccount(ctx, distributiontypes.ModuleName)
-	ak.GetModuleAccount(ctx, authtypes.Minter)
+	if !opt.Blank {
+		ak.GetModuleAccount(ctx, distributiontypes.ModuleName)
+		ak.GetModuleAccount(ctx, authtypes.Minter)
+	}
 
 	w := &L1{Ctx: ctx, StoreKeys: sks, Enc: enc, AK: ak, BK: bk, HK: hk, Q: ophostkeeper.NewQuerier(*hk),
 		Router: router, Perm: perm, Authority: authority, PoolAddr: authtypes.NewModuleAddress(distributiontypes.ModuleName)}
